@@ -140,6 +140,12 @@ def _run(ctx, F, raw, ns, p, kind, opts, overwrite, fault, log):
         log["check_completed"] = getattr(conv, "check_completed", None)
     except InjectedFault as e:
         res = e
+        # which file-system operation was interrupted: (op, path, n-th occurrence of that op on that path in this run)
+        ops = [t for t in F.trace if len(t) == 4 and isinstance(t[0], int) and t[0] >= n0]
+        if ops:
+            k, op, path, _ = ops[-1]
+            nth = sum(1 for t in ops[:-1] if t[1] == op and t[2] == path)
+            log["fault_op"] = [op, path, nth]
     except FileNotFoundError as e:
         res = e
     finally:
@@ -168,8 +174,9 @@ def case_history(ctx, kind, ns, fault1, overwrite1, second, third=None):
         # the fault index lies beyond the last operation of this option combination: nothing new to check
         ctx.oblige("fault_index_beyond_run", fault1 >= log1["ops"])
         return
-    ctx.oblige("original_recoverable_after_run1", _recoverable(ctx, F, raw, ns, p, kind), detail={"opts": opts, "fault": fault1, "result": repr(r1)[:120]})
-    ctx.oblige("original_unlinked_only_when_replacement_complete", all(log1["unlink_ok"]), detail={"opts": opts, "unlink_ok": log1["unlink_ok"]})
+    fop = log1.get("fault_op")
+    ctx.oblige("original_recoverable_after_run1", _recoverable(ctx, F, raw, ns, p, kind), detail={"opts": opts, "fault": fault1, "fault_op": fop, "result": repr(r1)[:120]})
+    ctx.oblige("original_unlinked_only_when_replacement_complete", all(log1["unlink_ok"]), detail={"opts": opts, "unlink_ok": log1["unlink_ok"], "fault_op": fop})
     if not crashed1:
         if isinstance(r1, Exception):
             ctx.oblige("run_without_interruption_does_not_raise", False, detail={"opts": opts, "overwrite": overwrite1, "exception": repr(r1)[:200]})
@@ -192,16 +199,16 @@ def case_history(ctx, kind, ns, fault1, overwrite1, second, third=None):
         return   # original legitimately deleted: no further run possible on it
     log2 = {}
     r2 = _run(ctx, F, raw, ns, p, kind, opts, second == "T", None, log2)
-    ctx.oblige("original_recoverable_after_run2", _recoverable(ctx, F, raw, ns, p, kind), detail={"opts": opts, "fault": fault1, "second": second, "result": repr(r2)[:120]})
+    ctx.oblige("original_recoverable_after_run2", _recoverable(ctx, F, raw, ns, p, kind), detail={"opts": opts, "fault": fault1, "fault_op": fop, "second": second, "result": repr(r2)[:120]})
     ctx.oblige("original_unlinked_only_when_replacement_complete", all(log2["unlink_ok"]), detail={"opts": opts})
     if second == "F" and not crashed1 and kind in ("NP2.4", "NP2.1"):
         ctx.oblige("repeated_run_without_overwrite_does_nothing", (not isinstance(r2, Exception)) and r2 == 0 and log2["mut"] == 0, detail={"status": repr(r2)[:100], "mutations": log2["mut"], "opts": opts})
     if second == "T" and kind == "NP2.4":
         if isinstance(r2, Exception):
-            ctx.oblige("forced_rerun_does_not_raise", False, detail={"opts": opts, "after_fault": fault1, "exception": repr(r2)[:200]})
+            ctx.oblige("forced_rerun_does_not_raise", False, detail={"opts": opts, "after_fault": fault1, "fault_op": fop, "exception": repr(r2)[:200]})
         else:
             ctx.oblige("forced_rerun_status_one", r2 == 1, detail={"status": r2})
-            ctx.oblige("forced_rerun_leaves_complete_valid_set", _valid_set(ctx, F, ns, p, opts["compress"]), detail={"opts": opts, "after_fault": fault1})
+            ctx.oblige("forced_rerun_leaves_complete_valid_set", _valid_set(ctx, F, ns, p, opts["compress"]), detail={"opts": opts, "after_fault": fault1, "fault_op": fop})
     if second == "T" and kind == "NP2.1":
         ctx.oblige("forced_rerun_np21_does_not_raise", not isinstance(r2, Exception), detail={"exception": repr(r2)[:200], "opts": opts})
     if third is None or (not bool(F.exists(ORIG)) and kind == "NP2.4"):
@@ -298,25 +305,40 @@ def recoverable():
             r = mtscomp.Reader(); r.open(d / 'x.imec0.ap.cbin', d / 'x.imec0.ap.ch'); ok = np.array_equal(r[:, :], data); r.close(); return ok
         except Exception: return False
     return False
-class Boom(OSError): pass
-def run(overwrite, fault):
+from symex import realfault
+fault_op = {cex['detail'].get('fault_op')!r}
+if fault1 is not None and not fault_op: not_reproduced('no interrupted operation recorded for this counterexample')
+def run(overwrite, plan):
     ap = orig if orig.exists() else d / 'x.imec0.ap.cbin'
     before = listing()
-    conv = neuropixel.NP2Converter(ap, post_check=opts['post_check'], delete_original=opts['delete_original'], compress=opts['compress'])
-    conv.init_params(nwindow=1200)
-    return conv.process(overwrite=overwrite), before
+    un = realfault.install(plan) if plan is not None else (lambda: None)
+    try:
+        conv = neuropixel.NP2Converter(ap, post_check=opts['post_check'], delete_original=opts['delete_original'], compress=opts['compress'])
+        conv.init_params(nwindow=1200)
+        return conv.process(overwrite=overwrite), before
+    finally:
+        un()
 bad = []
+plan = None
+if fault1 is not None:
+    # map the fake path (/s/...) onto the temporary directory
+    plan = realfault.Plan(fault_op[0], str(root) + fault_op[1], fault_op[2])
 try:
-    r1, before = run(ow1, None)
+    r1, before = run(ow1, plan)
+    if plan is not None and not plan.fired: not_reproduced(f'the interrupted operation {{fault_op}} was not reached in the real run')
+except realfault.Boom as e:
+    r1 = e
+    print('interrupted:', e)
 except Exception as e:
     r1 = e
     if fault1 is None: bad.append(f'run 1 (overwrite={{ow1}}, opts={{opts}}) raised {{type(e).__name__}}: {{e}}')
+    elif plan is not None and not plan.fired: bad.append(f'run 1 raised {{type(e).__name__}}: {{e}} before the injected interruption')
 if not recoverable(): bad.append('original not recoverable after run 1')
 if not isinstance(r1, Exception):
     if kind == 'NP1' and r1 != -1: bad.append('NP1 status')
     if kind == 'split' and r1 != 0: bad.append('already split status')
     if kind == 'NP2.4' and not orig.exists() and not (opts['post_check'] and opts['delete_original']): bad.append('original deleted without verification')
-if second is not None and (orig.exists() or kind != 'NP2.4') and fault1 is None:
+if second is not None and (orig.exists() or kind != 'NP2.4'):
     before = listing()
     try:
         r2 = neuropixel.NP2Converter(orig if orig.exists() else d / 'x.imec0.ap.cbin', post_check=opts['post_check'], delete_original=opts['delete_original'], compress=opts['compress'])
@@ -330,5 +352,5 @@ if second is not None and (orig.exists() or kind != 'NP2.4') and fault1 is None:
     if not recoverable(): bad.append('original not recoverable after run 2')
 print(bad)
 if bad: reproduced(str(bad))
-not_reproduced('(interruption replays are not materialised; fault-free part did not reproduce)')
+not_reproduced()
 """
